@@ -751,7 +751,7 @@ func runC15(c *Ctx) {
 		}
 	}
 	c15bulk(c, tmp)
-	c.Require("bulk_sign_key_ids_checked", "registry_alias_checks", "cold_start_processes", "bulk_requests")
+	c.Require("bulk_streams:gomaxprocs=1", "bulk_sign_key_ids_checked", "registry_alias_checks", "cold_start_processes", "bulk_requests")
 }
 
 // ---- bulk stream checker -----------------------------------------------------------
@@ -789,12 +789,76 @@ func readBulk(r io.Reader) ([]bulkResp, error) {
 	return out, sc.Err()
 }
 
+// c15bulkFewProcessors sends one short mixed stream to servers limited to one
+// and two processors: every request must be answered and the final marker must
+// arrive, however few processors run the request goroutines. A stream that gets
+// no answer within the client's watchdog is retried twice on a fresh server;
+// only three silent streams in a row are reported.
+func c15bulkFewProcessors(c *Ctx, gbin string) {
+	b64 := func(b []byte) string { return base64.StdEncoding.EncodeToString(b) }
+	items := corpus.Golden()
+	if len(items) == 0 {
+		return
+	}
+	doc, _ := gx.DocJSON(items[0].Data)
+	var body bytes.Buffer
+	reqs := []bulkReq{
+		{"sleep", "f1", "20ms"}, {"ping", "f2", nil}, {"schemas", "f3", nil}, {"frobnicate", "f4", nil},
+		{"build", "f5", map[string]any{"data": b64(doc)}}, {"validate", "f6", map[string]any{"data": b64(items[0].Data)}}, {"ping", "f7", nil},
+	}
+	for _, r := range reqs {
+		l, _ := json.Marshal(r)
+		body.Write(l)
+		body.WriteByte('\n')
+	}
+	for _, procs := range []int{1, 2} {
+		silent := 0
+		for attempt := 0; attempt < 3; attempt++ {
+			server, err := srv.Start(gbin, fmt.Sprintf("GOMAXPROCS=%d", procs))
+			if err != nil {
+				c.R.Inconclusive("server-start:" + err.Error())
+				return
+			}
+			server.Client.Timeout = 90 * time.Second
+			resp, err := server.PostStream("/bulk", bytes.NewReader(body.Bytes()))
+			var rs []bulkResp
+			if err == nil {
+				rs, err = readBulk(resp.Body)
+				resp.Body.Close()
+			}
+			server.Kill()
+			c.R.Count(fmt.Sprintf("bulk_streams:gomaxprocs=%d", procs), 1)
+			if err != nil || len(rs) == 0 {
+				silent++
+				continue
+			}
+			answered := map[string]bool{}
+			finals := 0
+			for _, r := range rs {
+				if r.IsFinal {
+					finals++
+				} else {
+					answered[r.ReqID] = true
+				}
+			}
+			if len(answered) != len(reqs) || finals != 1 || !rs[len(rs)-1].IsFinal {
+				c.R.Fail(fmt.Sprintf("bulk:few-processors:gomaxprocs=%d", procs), fmt.Sprintf("server with GOMAXPROCS=%d: %d of %d requests answered, %d final markers", procs, len(answered), len(reqs), finals), map[string]any{"gomaxprocs": procs})
+			}
+			break
+		}
+		if silent == 3 {
+			c.R.Fail(fmt.Sprintf("bulk:no-response:gomaxprocs=%d", procs), fmt.Sprintf("server with GOMAXPROCS=%d: a stream of %d requests got no response within 90 s, three times on fresh servers", procs, len(reqs)), map[string]any{"gomaxprocs": procs})
+		}
+	}
+}
+
 func c15bulk(c *Ctx, tmp string) {
 	gbin := filepath.Join(ev.Root(), "bin", "gobl-race")
 	if _, err := os.Stat(gbin); err != nil {
 		c.R.Inconclusive("no-race-cli-binary")
 		return
 	}
+	c15bulkFewProcessors(c, gbin)
 	logBase := filepath.Join(tmp, "server-race.log")
 	server, err := srv.Start(gbin, "GORACE=halt_on_error=0 log_path="+logBase)
 	if err != nil {
